@@ -9,7 +9,7 @@ pushed and forget it", callable any number of times after any item); `refDfsT` /
 recursions: pre-order, children by ascending label, sub-trees of the items marked in the schedule omitted.
 Any branching factor, any start node (`start` is the sub-tree the traversal is started at), no bound on size.
 The traversal theorems use core Lean only; the metric theorems at the end (`C13_depth`, `C13_num_terminals`,
-`C13_path_to_node`: the quantities the code computes from the traversals, the arena flags and the parent links are
+`C13_depth_stats_sample`, `C13_path_to_node`: the quantities the code computes from the traversals, the arena flags and the parent links are
 the structural height, terminal count and root path) use the arena lemmas of `Proofs/TreeLemmas` (two `Mathlib.Data.List`
 modules).
 -/
@@ -455,5 +455,72 @@ theorem C13_path_to_node (t : ITree β) (hnd : t.indices.Nodup) (i : Nat) (hi : 
     -- the path is shorter than the tree
     have hlen := ITree.pathTo?_length t _ path hp
     exact ITree.pathUp_eq t hnd path.length sq hsq path hp rfl t.size (by omega)
+
+/-- `is_leaf(index)` as the code asks it: look the node up, test its child slots -/
+def ITree.isLeafIdx (whole : ITree β) (i : Nat) : Bool :=
+  match whole.find? i with
+  | some s => s.kids.allNone
+  | none => false
+
+theorem refDfsK_allNone (sk : Nat → Nat) (d : Nat) (ks : IKids β) (k : Nat) (h : ks.allNone = true) :
+    refDfsK sk d ks k = ([], k) := by
+  match ks with
+  | .nil => simp [refDfsK]
+  | .cons none r =>
+    simp only [IKids.allNone] at h
+    simp only [refDfsK]
+    exact refDfsK_allNone sk d r k h
+  | .cons (some t) r => simp [IKids.allNone] at h
+
+theorem IKids.leafDepths_allNone (ks : IKids β) (d : Nat) (h : ks.allNone = true) : ks.leafDepths d = [] := by
+  match ks with
+  | .nil => simp [IKids.leafDepths]
+  | .cons none r =>
+    simp only [IKids.allNone] at h
+    simp only [IKids.leafDepths]
+    exact IKids.leafDepths_allNone r d h
+  | .cons (some t) r => simp [IKids.allNone] at h
+
+mutual
+theorem refDfsT_leafDepths (whole : ITree β) (d : Nat) (t : ITree β) (p : Option Nat) (r k : Nat)
+    (H : ∀ sq ∈ t.subs p, whole.find? sq.1.idx = some sq.1) :
+    (((refDfsT (fun _ => 0) d t r k).1.filter (fun it => whole.isLeafIdx it.idx)).map (·.depth)) = t.leafDepths d := by
+  match t with
+  | .node i v ks =>
+    have hhead : whole.isLeafIdx i = ks.allNone := by
+      have := H (.node i v ks, p) (ITree.subs_head _ _)
+      simp only [ITree.idx] at this
+      simp [ITree.isLeafIdx, this, ITree.kids]
+    simp only [refDfsT, ne_eq, not_true_eq_false, if_false, List.filter_cons, hhead, ITree.leafDepths]
+    cases hall : ks.allNone with
+    | true =>
+      simp only [if_true, List.map_cons]
+      rw [refDfsK_allNone _ _ ks _ hall]
+      simp
+    | false =>
+      simp only [Bool.false_eq_true, if_false]
+      exact refDfsK_leafDepths whole (d+1) ks i (k+1) (fun sq hsq => H sq (by
+        simp only [ITree.subs, List.mem_cons]; exact Or.inr hsq))
+theorem refDfsK_leafDepths (whole : ITree β) (d : Nat) (ks : IKids β) (p : Nat) (k : Nat)
+    (H : ∀ sq ∈ ks.subs p, whole.find? sq.1.idx = some sq.1) :
+    (((refDfsK (fun _ => 0) d ks k).1.filter (fun it => whole.isLeafIdx it.idx)).map (·.depth)) = ks.leafDepths d := by
+  match ks with
+  | .nil => simp [refDfsK, IKids.leafDepths]
+  | .cons none r =>
+    simp only [refDfsK, IKids.leafDepths]
+    exact refDfsK_leafDepths whole d r p k (fun sq hsq => H sq (by simpa [IKids.subs] using hsq))
+  | .cons (some t) r =>
+    simp only [refDfsK, IKids.leafDepths, List.filter_append, List.map_append]
+    rw [refDfsT_leafDepths whole d t (some p) r.count k (fun sq hsq => H sq (by
+        simp only [IKids.subs, List.mem_append]; exact Or.inl hsq)),
+      refDfsK_leafDepths whole d r p _ (fun sq hsq => H sq (by
+        simp only [IKids.subs, List.mem_append]; exact Or.inr hsq))]
+end
+
+/-- `depth_stats()` aggregates, over the items of the depth-first traversal whose node is a leaf (`is_leaf(index)`), the
+    reported depths: on a tree with pairwise distinct indices these are the depths of the terminals, in pre-order -/
+theorem C13_depth_stats_sample (t : ITree β) (hnd : t.indices.Nodup) :
+    (((refDfsT (fun _ => 0) 0 t 0 0).1.filter (fun it => t.isLeafIdx it.idx)).map (·.depth)) = t.leafDepths 0 :=
+  refDfsT_leafDepths t 0 t none 0 0 (ITree.find?_of_sub t none hnd)
 
 end AV
